@@ -516,52 +516,170 @@ def next_form(ctx):
   return HISTORY_FORMS[ctx.c15_turn % len(HISTORY_FORMS)]
 
 
-def recovered_instance(ctx, cfg, params, spec, h, form, diffs):
-  """Fresh instance + recover(`h` in the given form); None if recover raised
-  (recorded in `diffs`)."""
+# Deliveries: `recover` "could be called multiple times if there are multiple
+# source of history" (documented), so the persisted history reaches the fresh
+# instance in 1..4 consecutive pieces, one recover() call per piece. The
+# classes of split points rotate with the crash points (8 deliveries x 9 forms,
+# coprime): a piece may be empty (a source without trials), a cut may separate
+# the answered proposals from the pending ones, or fall inside / right after
+# the proposals that fill the initial population of an Evolution.
+DELIVERIES = ['whole', 'empty-last', 'cut-before-pending', '3-pieces',
+              'empty-first', 'cut-in-fill', '4-pieces', 'cut-after-fill']
+WHOLE = ('whole', ())
+PIECEWISE_SUFFIX = '+piecewise-history'
+
+
+def evolution_of(algo):
+  """The Evolution of a configuration (itself or under wrappers), or None."""
+  x = algo
+  for _ in range(4):
+    if x is None or isinstance(x, evo.Evolution):
+      return x
+    x = getattr(x, 'generator', None)
+  return None
+
+
+def fill_size(algo):
+  """Number of fed-back proposals that complete the initial population of
+  the Evolution in `algo` (its public `population_init` member), or None."""
+  e = evolution_of(algo)
+  if e is None or not isinstance(e.population_init, tuple):
+    return None
+  return e.population_init[1]
+
+
+def cut_classes(cuts, k, a, fill):
+  """Classes of the split points `cuts` of a history of `k` entries of which
+  the first `a` are answered (harness facts only)."""
+  out = set()
+  if not cuts:
+    return out
+  bounds = [0] + list(cuts) + [k]
+  if bounds[1] == 0:
+    out.add('empty-first-piece')
+  if bounds[-2] == k:
+    out.add('empty-last-piece')
+  if any(x == y for x, y in zip(bounds[1:-1], bounds[2:-1])):
+    out.add('empty-middle-piece')
+  if any(0 < c < k for c in cuts):
+    out.add('interior-cut')
+  if 0 < a < k and a in cuts:
+    out.add('cut-before-pending')
+  if any(a < c < k for c in cuts):
+    out.add('cut-between-pending')
+  if fill:
+    # In-order feedback: h[:c] holds min(c, a) answered proposals.
+    if any(0 < min(c, a) < fill and c < k for c in cuts):
+      out.add('cut-inside-population-fill')
+    if a >= fill and fill in cuts:
+      out.add('cut-after-population-fill')
+  return out
+
+
+def plan_delivery(ctx, live):
+  """(name, cuts) of the delivery of this crash point (rotating)."""
+  name = DELIVERIES[ctx.c15_turn % len(DELIVERIES)]
+  rng = ctx.rng
+  k = len(live.history)
+  a = k - len(live.pending)
+  fill = fill_size(live.algo)
+
+  def interior():
+    return rng.randint(1, k - 1) if k >= 2 else rng.randint(0, k)
+
+  if name == 'whole':
+    cuts = []
+  elif name == 'empty-first':
+    cuts = [0]
+  elif name == 'empty-last':
+    cuts = [k]
+  elif name == 'cut-before-pending':
+    cuts = [a] if 0 < a < k else [interior()]
+  elif name == 'cut-in-fill':
+    upper = min(a, fill) if fill else 0
+    cuts = [rng.randint(1, upper - 1)] if upper >= 2 else [interior()]
+  elif name == 'cut-after-fill':
+    cuts = [fill] if fill and a >= fill else [interior()]
+  elif name == '3-pieces':
+    cuts = sorted(rng.randint(0, k) for _ in range(2))
+  else:
+    marks = [0, k, a, rng.randint(0, k), rng.randint(0, k), rng.randint(0, k)]
+    if fill and fill <= k:
+      marks += [fill, rng.randint(0, fill)]
+    cuts = sorted(rng.choice(marks) for _ in range(3))
+  return name, tuple(cuts)
+
+
+def recovered_instance(ctx, cfg, params, spec, h, form, diffs, cuts=()):
+  """Fresh instance + recover() of `h`, cut at `cuts` into consecutive pieces
+  that are handed over one recover() call each in the given form; None if
+  recover raised (recorded in `diffs`)."""
   b = cfg.make(params)
   ctx.label = 'setup:' + cfg.family
   b.setup(spec)
-  handed = form[2](list(h))
-  ctx.label = 'recover:' + cfg.family
-  try:
-    b.recover(handed)
-  except Exception as e:  # pylint: disable=broad-except
-    if not lib_raised(e):
-      raise
+  h = list(h)
+  bounds = [0] + list(cuts) + [len(h)]
+  for lo, hi in zip(bounds, bounds[1:]):
+    handed = form[2](h[lo:hi])
+    ctx.label = 'recover:' + cfg.family
+    try:
+      b.recover(handed)
+    except Exception as e:  # pylint: disable=broad-except
+      if not lib_raised(e):
+        raise
+      ctx.label = None
+      diffs.append(('recover-raises', cfg.family, f'{type(e).__name__}: {e!s:.300}', {}))
+      return None
     ctx.label = None
-    diffs.append(('recover-raises', cfg.family, f'{type(e).__name__}: {e!s:.300}', {}))
-    return None
-  ctx.label = None
   return b
 
 
-def report(ctx, cfg, params, live, diffs, form, base_diffs):
+def report(ctx, cfg, params, live, diffs, form, base_diffs, delivery=None):
   """Reports the differences [(clause, mechanism, detail, witness extras)] of
-  an instance recovered from a history in `form`. `base_diffs()` = the
-  differences of an instance recovered from a list of the same entries: what
-  it shows as well is reported under the plain mechanism, what only the other
-  form shows gets the suffix of the form's kind."""
+  an instance recovered from a history in `form`, delivered as `delivery` =
+  (name, cuts, classes of the cuts). `base_diffs(cuts)` = the differences of
+  an instance recovered from lists of the same entries cut at `cuts`: what a
+  single list shows as well is reported under the plain mechanism; what only
+  the pieces show (as lists, too) gets the piecewise suffix, what only the
+  other form shows the suffix of the form's kind."""
   if not diffs:
     return
   name, kind, _ = form
-  plain = None
-  if kind != 'sequence':
-    ctx.counters['history_form_attributions'] += 1
-    plain = {(c, m) for c, m, _, _ in base_diffs()}
+  dname, cuts, classes = delivery or (WHOLE[0], (), set())
+  plain = pieces = None
   seen = set()
+  top = type(live.algo).__name__ + '.recover'
   for clause, mech, detail, extra in diffs:
-    if plain is not None and (clause, mech) not in plain:
-      # The outermost generator is the one that consumes the Iterable: its
-      # recover() is the mechanism, whatever it wraps.
-      mech = type(live.algo).__name__ + '.recover' + FORM_SUFFIX[kind]
-      detail += (f' [history handed to recover() as {name}; an instance recovered '
-                 'from a list of the same entries does not show this]')
+    if kind != 'sequence' or cuts:
+      if plain is None:
+        ctx.counters['history_form_attributions'] += 1
+        plain = {(c, m) for c, m, _, _ in base_diffs(())}
+      if (clause, mech) not in plain:
+        piecewise = bool(cuts)
+        if cuts and kind != 'sequence':
+          if pieces is None:
+            pieces = {(c, m) for c, m, _, _ in base_diffs(cuts)}
+          piecewise = (clause, mech) in pieces
+        if piecewise:
+          # The outermost generator is the one the pieces are handed to.
+          mech = top + PIECEWISE_SUFFIX
+          if 'cut-inside-population-fill' in classes:
+            mech += '+cut-inside-population-fill'
+          detail += (f' [history handed over in {len(cuts) + 1} recover() calls, cut at '
+                     f'{list(cuts)} ({dname}: {sorted(classes)}); an instance that recovers '
+                     'the same entries in one call does not show this]')
+        else:
+          # The outermost generator is the one that consumes the Iterable: its
+          # recover() is the mechanism, whatever it wraps.
+          mech = top + FORM_SUFFIX[kind]
+          detail += (f' [history handed to recover() as {name}; an instance recovered '
+                     'from a list of the same entries does not show this]')
     if (clause, mech) in seen:
       continue
     seen.add((clause, mech))
     ctx.violation(clause, mech, detail,
-                  witness(cfg, params, live, history_form=name, **extra))
+                  witness(cfg, params, live, history_form=name, delivery=dname,
+                          cuts=list(cuts), **extra))
 
 
 def witness(cfg, params, live, **kw):
@@ -679,19 +797,31 @@ def memory_mechanism(live, pa, pb):
 
 def check_crash_point(ctx, cfg, params, spec, live, path, destructive, m):
   """Recovers at the current point of `live`; returns (recovered instance or
-  None, persisted history, form it was handed over in)."""
+  None, persisted history, form it was handed over in, delivery)."""
   c = ctx.counters
   j = len(live.pending)
   form = next_form(ctx)
+  dname, cuts = plan_delivery(ctx, live)
+  k = len(live.history)
+  classes = cut_classes(cuts, k, k - j, fill_size(live.algo))
+  delivery = (dname, cuts, classes)
   c['crash_points'] += 1
   if j:
     c['crash_points_pending'] += 1
   c['crash_points:' + cfg.family] += 1
   c[f'crash_points:{path}:missing={j}'] += 1
   c['crash_points:history-form=' + form[0]] += 1
+  c['crash_points:delivery=' + dname] += 1
+  c['recover_calls'] += len(cuts) + 1
+  if cuts:
+    c['crash_points_piecewise'] += 1
+    c['crash_points_piecewise:' + cfg.family] += 1
+  for cls in classes:
+    c['crash_points:' + cls] += 1
   if form[1] == 'one-shot' and live.history:
     c['crash_points_one_shot_history'] += 1
   ctx.seen('crash_point_kinds', (cfg.name, path, len(live.history), j))
+  ctx.seen('delivery_kinds', (cfg.family, form[0], tuple(sorted(classes))))
   sfx = '+pending' if (j and live.algo.needs_feedback) else ''
   mech = cfg.family + sfx
   h = persist(live.history)
@@ -699,7 +829,7 @@ def check_crash_point(ctx, cfg, params, spec, live, path, destructive, m):
   # The uninterrupted side is observed once (the destructive part last).
   lv = {'state': observe(live.algo)}
   b_diffs = []
-  b = recovered_instance(ctx, cfg, params, spec, h, form, b_diffs)
+  b = recovered_instance(ctx, cfg, params, spec, h, form, b_diffs, cuts)
   if destructive and b is not None:
     if cfg.determined:
       c['continuation_compares'] += 1
@@ -735,9 +865,9 @@ def check_crash_point(ctx, cfg, params, spec, live, path, destructive, m):
                       '(dna, accepted before de-duplication, then): uninterrupted vs '
                       f'recovered {diff!r:.600}', {}))
 
-  def base_diffs():
+  def base_diffs(at):
     diffs = []
-    x = recovered_instance(ctx, cfg, params, spec, h, LIST_FORM, diffs)
+    x = recovered_instance(ctx, cfg, params, spec, persist(h), LIST_FORM, diffs, at)
     if x is not None:
       examine(x, diffs, False)
     return diffs
@@ -746,8 +876,8 @@ def check_crash_point(ctx, cfg, params, spec, live, path, destructive, m):
     c['recover_raised'] += 1
   else:
     examine(b, b_diffs, True)
-  report(ctx, cfg, params, live, b_diffs, form, base_diffs)
-  return b, h, form
+  report(ctx, cfg, params, live, b_diffs, form, base_diffs, delivery)
+  return b, h, form, delivery
 
 
 # ---------------------------------------------------------------------------
@@ -901,8 +1031,9 @@ def run_case(ctx, i):
         break
       if len(live.pending) > w:
         live.feedback_oldest()
-      b, h, form = check_crash_point(ctx, cfg, params, spec, live, 'lag', False, m)
-      recovered.append((len(live.history), b, h, form))
+      b, h, form, delivery = check_crash_point(
+          ctx, cfg, params, spec, live, 'lag', False, m)
+      recovered.append((len(live.history), b, h, form, delivery))
       if sp.custom:
         c['crash_points_custom_space'] += 1
       note(live, schedule='lag', w=w)
@@ -916,7 +1047,7 @@ def run_case(ctx, i):
         if not live.propose():
           break
       future = [numbers(d) for d, _ in live.history]
-      for at, b, h, form in recovered:
+      for at, b, h, form, delivery in recovered:
         if b is None:
           continue
         c['continuation_compares'] += 1
@@ -932,12 +1063,49 @@ def run_case(ctx, i):
                    f'after {at} proposals the uninterrupted run continues with {exp}, '
                    f'the recovered one with {got}', {'crash_point': at})]
 
-        def base_diffs(h=h, continuation=continuation):
+        def base_diffs(cuts, h=h, continuation=continuation):
           diffs = []
-          x = recovered_instance(ctx, cfg, params, spec, h, LIST_FORM, diffs)
+          x = recovered_instance(ctx, cfg, params, spec, persist(h), LIST_FORM,
+                                 diffs, cuts)
           return diffs if x is None else continuation(x)
 
-        report(ctx, cfg, params, live, continuation(b), form, base_diffs)
+        report(ctx, cfg, params, live, continuation(b), form, base_diffs, delivery)
+    elif cfg.feedback:
+      # Evolution-based: the proposal that follows a crash point is either a
+      # member of the initial population or a child of the population (public
+      # `is_initial_population` of the DNA): which of the two is decided by
+      # the history (the number of feedbacks), not by the seed. No feedback
+      # lies between a crash point and the next proposal of this schedule.
+      for at, b, h, form, delivery in recovered:
+        if b is None or at >= len(live.history):
+          continue
+        exp = evo.is_initial_population(live.history[at][0])
+
+        def phase(x, exp=exp, at=at):
+          c['phase_compares'] += 1
+          ctx.label = 'continue-propose:' + cfg.family
+          try:
+            got = evo.is_initial_population(x.propose())
+          except StopIteration:
+            c['phase_compares_without_proposal'] += 1
+            return []
+          finally:
+            ctx.label = None
+          if got == exp:
+            return []
+          word = {True: 'a member of the initial population',
+                  False: 'a child of the population'}
+          return [('phase', cfg.family,
+                   f'after {at} proposals the uninterrupted run proposes {word[exp]}, '
+                   f'the recovered one {word[got]}', {'crash_point': at})]
+
+        def base_phase(cuts, h=h, phase=phase):
+          diffs = []
+          x = recovered_instance(ctx, cfg, params, spec, persist(h), LIST_FORM,
+                                 diffs, cuts)
+          return diffs if x is None else phase(x)
+
+        report(ctx, cfg, params, live, phase(b), form, base_phase, delivery)
 
   # -- schedule "tail": answered proposals, then unanswered ones -------------
   if is_puppet(cfg):
